@@ -298,3 +298,354 @@ def gen_cfg_drivers(repo, outdir):
     except (ExtractError, SyntaxError, OSError) as ex:
         write_if_changed(path, STUB % str(ex).replace('*)', '* )'))
         return {'CFG_drivers': (False, str(ex), path)}
+
+
+# ============================================================================ C07: reference / arity / unpack table, reverse rules
+
+def cstr(s):
+    return '"%s"' % str(s).replace('"', '""')
+
+
+def cbool(b):
+    return 'true' if b else 'false'
+
+
+def clist(items):
+    return '[' + '; '.join(items) + ']'
+
+
+class ModuleIndex:
+    """top-level defs, namedtuples and class methods of one optimism module"""
+
+    def __init__(self, repo, relpath):
+        self.rel = relpath
+        self.tree = ast.parse(open(os.path.join(repo, relpath)).read())
+        self.funcs, self.ntuples, self.classes = {}, {}, {}
+        for st in self.tree.body:
+            if isinstance(st, ast.FunctionDef):
+                self.funcs[st.name] = st
+            elif isinstance(st, ast.ClassDef):
+                self.classes[st.name] = {m.name: m for m in st.body if isinstance(m, ast.FunctionDef)}
+            elif isinstance(st, ast.Assign) and len(st.targets) == 1 and isinstance(st.targets[0], ast.Name) \
+                    and isinstance(st.value, ast.Call) and callee_name(st.value.func) == 'namedtuple':
+                a = st.value.args
+                if len(a) >= 2 and isinstance(a[1], ast.List):
+                    nd = 0
+                    for k in st.value.keywords:
+                        if k.arg == 'defaults' and isinstance(k.value, (ast.Tuple, ast.List)):
+                            nd = len(k.value.elts)
+                    self.ntuples[st.targets[0].id] = ([e.value for e in a[1].elts], nd)
+
+
+def signature(fn, drop_self=False):
+    a = fn.args
+    params = [x.arg for x in a.posonlyargs + a.args]
+    if drop_self and params:
+        params = params[1:]
+    return params, len(a.defaults), a.vararg is not None, a.kwarg is not None
+
+
+def own_returns(fn):
+    """tuple widths of the return statements of fn itself (nested defs / lambdas excluded); 0 = not a literal tuple"""
+    out = []
+
+    def walk(node):
+        for ch in ast.iter_child_nodes(node):
+            if isinstance(ch, (ast.FunctionDef, ast.Lambda, ast.ClassDef)):
+                continue
+            if isinstance(ch, ast.Return):
+                out.append(len(ch.value.elts) if isinstance(ch.value, ast.Tuple) else 0)
+            walk(ch)
+    walk(fn)
+    return out
+
+
+def gen_refs_nonlinear_solve(repo, outdir):
+    path = os.path.join(outdir, 'Refs_NonlinearSolve.v')
+    try:
+        rel = 'optimism/inverse/NonlinearSolve.py'
+        tree = ast.parse(open(os.path.join(repo, rel)).read())
+        # imported optimism modules:  from optimism import X
+        mods = {}
+        for st in tree.body:
+            if isinstance(st, ast.ImportFrom) and st.module == 'optimism':
+                for al in st.names:
+                    p = 'optimism/%s.py' % al.name
+                    if os.path.exists(os.path.join(repo, p)):
+                        mods[al.asname or al.name] = ModuleIndex(repo, p)
+        obj_index = ModuleIndex(repo, 'optimism/Objective.py')
+        obj_methods = obj_index.classes.get('Objective', {})
+        calls, unpacks, attrs = [], [], []
+
+        def resolve(call, objname):
+            """-> (callee label, exists, params, ndefaults, vararg, kwarg, fn node or None) or None if not statically resolvable"""
+            f = call.func
+            if isinstance(f, ast.Attribute) and isinstance(f.value, ast.Name):
+                base, name = f.value.id, f.attr
+                if base in mods:
+                    mi = mods[base]
+                    label = '%s.%s' % (base, name)
+                    if name in mi.funcs:
+                        return (label,) + (True,) + signature(mi.funcs[name]) + (mi.funcs[name],)
+                    if name in mi.ntuples:
+                        flds, nd = mi.ntuples[name]
+                        return (label, True, flds, nd, False, False, None)
+                    return (label, False, [], 0, False, False, None)
+                if base == objname:
+                    label = 'Objective.Objective.%s' % name
+                    if name in obj_methods:
+                        return (label,) + (True,) + signature(obj_methods[name], drop_self=True) + (obj_methods[name],)
+                    return (label, False, [], 0, False, False, None)
+            return None
+
+        for fn in [st for st in tree.body if isinstance(st, ast.FunctionDef)]:
+            objname = fn.args.args[0].arg if fn.args.args else None
+            bound = {}      # local name -> resolved callee of the call it was bound to
+            for node in ast.walk(fn):
+                if isinstance(node, ast.Call):
+                    r = resolve(node, objname)
+                    if r is None:
+                        continue
+                    if any(isinstance(a, ast.Starred) for a in node.args) or any(k.arg is None for k in node.keywords):
+                        raise ExtractError('%s line %d: star arguments in a resolvable call' % (fn.name, node.lineno))
+                    label, ex, params, nd, va, kw, _ = r
+                    calls.append('{| c_site := %s; c_line := %d; c_callee := %s; c_exists := %s; c_npos := %d; c_kws := %s; c_params := %s; '
+                                 'c_ndefaults := %d; c_vararg := %s; c_kwarg := %s |}' %
+                                 (cstr(fn.name), node.lineno, cstr(label), cbool(ex), len(node.args), clist([cstr(k.arg) for k in node.keywords]),
+                                  clist([cstr(p) for p in params]), nd, cbool(va), cbool(kw)))
+                elif isinstance(node, ast.Attribute) and isinstance(node.value, ast.Name) and node.value.id == objname and isinstance(node.ctx, ast.Load):
+                    attrs.append((fn.name, node.lineno, node.attr))
+            for node in ast.walk(fn):
+                if isinstance(node, ast.Assign) and isinstance(node.value, ast.Call):
+                    r = resolve(node.value, objname)
+                    if r is None or r[6] is None:
+                        continue
+                    t = node.targets[0]
+                    widths = own_returns(r[6])
+                    if isinstance(t, ast.Tuple):
+                        unpacks.append((fn.name, node.lineno, r[0], len(t.elts), True, widths))
+                    elif isinstance(t, ast.Name):
+                        bound[t.id] = (r[0], widths)
+            for node in ast.walk(fn):
+                if isinstance(node, ast.Subscript) and isinstance(node.slice, ast.Constant) and isinstance(node.slice.value, int) and node.slice.value >= 0:
+                    if isinstance(node.value, ast.Name) and node.value.id in bound:
+                        lab, widths = bound[node.value.id]
+                    elif isinstance(node.value, ast.Call) and resolve(node.value, objname) is not None and resolve(node.value, objname)[6] is not None:
+                        rr = resolve(node.value, objname)
+                        lab, widths = rr[0], own_returns(rr[6])
+                    else:
+                        continue
+                    if widths and all(w > 0 for w in widths):     # only when every return is a literal tuple
+                        unpacks.append((fn.name, node.lineno, lab, node.slice.value + 1, False, widths))
+        # attribute references on the objective that are not calls' func: must exist as method or be set in Objective.__init__
+        init_attrs = set()
+        if '__init__' in obj_methods:
+            for n in ast.walk(obj_methods['__init__']):
+                if isinstance(n, ast.Attribute) and isinstance(n.value, ast.Name) and n.value.id == 'self' and isinstance(n.ctx, ast.Store):
+                    init_attrs.add(n.attr)
+        attr_rows = ['(%s, %d, %s, %s)' % (cstr(a), ln, cstr(name), cbool(name in obj_methods or name in init_attrs)) for a, ln, name in attrs]
+        unpack_rows = ['{| u_site := %s; u_line := %d; u_callee := %s; u_width := %d; u_exact := %s; u_ret_widths := %s |}' %
+                       (cstr(a), ln, cstr(lab), w, cbool(ex), clist(['%d' % x for x in ws])) for a, ln, lab, w, ex, ws in unpacks]
+        rules = [reverse_rule(tree, 'nonlinear_solve_b'), reverse_rule(tree, 'nonlinear_solve_with_state_b')]
+        fwd = forward_slots(tree)
+        afs = function_space_terms(repo)
+        text = ('(* GENERATED on every run by /verif/tools/vlib/extract_drivers.py from %s (and Objective.py, EquationSolver.py,\n'
+                '   WarmStart.py, AdjointFunctionSpace.py, FunctionSpace.py) in /repo -- do not edit.  Vocabulary: model/M_C07_Refs.v. *)\n'
+                'From Coq Require Import List String.\nImport ListNotations.\nFrom OV.model Require Import M_C07_Refs.\nOpen Scope string_scope.\n\n'
+                'Definition refs : list callref :=\n  %s.\n\nDefinition unpacks : list unpackref :=\n  %s.\n\n'
+                '(* (function, line, attribute, defined as a method of class Objective or assigned in its __init__) *)\n'
+                'Definition attr_refs : list (string * nat * string * bool) :=\n  %s.\n\n'
+                'Definition rule_nonlinear_solve_b : revrule :=\n  %s.\n\nDefinition rule_nonlinear_solve_with_state_b : revrule :=\n  %s.\n\n'
+                '(* nonlinear_solve: which slot of objective.p receives the differentiated argument, in the forward and in the reverse pass *)\n'
+                'Definition nonlinear_solve_slot_forward : nat := %d.\nDefinition nonlinear_solve_slot_reverse : nat := %d.\n\n'
+                '(* normalised bodies of the two function-space constructors (mesh.coords := coords, module prefixes dropped) *)\n'
+                'Definition afs_term_adjoint : string := %s.\nDefinition afs_term_direct : string := %s.\n'
+                'Definition afs_mesh_rebuild_copies_all_fields : bool := %s.\n'
+                '(* Mesh fields the adjoint constructor does not pass on when it re-makes the mesh; fields passed but not copied verbatim *)\n'
+                'Definition afs_mesh_fields_missing : list string := %s.\nDefinition afs_mesh_fields_wrong : list string := %s.\n'
+                % (rel, clist(['\n   ' + c for c in calls]), clist(['\n   ' + u for u in unpack_rows]), clist(['\n   ' + a for a in attr_rows]),
+                   rules[0], rules[1], fwd[0], fwd[1], cstr(afs[0]), cstr(afs[1]), cbool(afs[2]), clist([cstr(x) for x in afs[3]]), clist([cstr(x) for x in afs[4]])))
+        write_if_changed(path, text)
+        return {'Refs_NonlinearSolve': (True, 'ok', path)}
+    except (ExtractError, SyntaxError, OSError, KeyError, IndexError, AttributeError) as ex:
+        write_if_changed(path, STUB % ('%s: %s' % (type(ex).__name__, str(ex))).replace('*)', '* )'))
+        return {'Refs_NonlinearSolve': (False, str(ex), path)}
+
+
+def _is_obj_attr(e, obj, attr):
+    return isinstance(e, ast.Attribute) and isinstance(e.value, ast.Name) and e.value.id == obj and e.attr == attr
+
+
+def reverse_rule(tree, name):
+    fn = find_func(tree, name)
+    params = [a.arg for a in fn.args.args]
+    if len(params) != 4:
+        raise ExtractError('%s: expected (objective, settings, rdata, v)' % name)
+    obj, _, rdata, v = params
+    # Uu, <pname> = rdata
+    sol, pname = None, None
+    for st in fn.body:
+        if isinstance(st, ast.Assign) and isinstance(st.value, ast.Name) and st.value.id == rdata and isinstance(st.targets[0], ast.Tuple) \
+                and len(st.targets[0].elts) == 2:
+            sol, pname = st.targets[0].elts[0].id, st.targets[0].elts[1].id
+    if sol is None:
+        raise ExtractError('%s: residual data not unpacked as (solution, params)' % name)
+    sets_p = False
+    zeros = set()
+    hv = None
+    adj = None
+    lam = None
+    results = None
+    dps = {}
+    ret = None
+
+    def is_zero_vec(e):
+        if isinstance(e, ast.Name) and e.id in zeros:
+            return True
+        if isinstance(e, ast.BinOp) and isinstance(e.op, ast.Mult):
+            for a, b in ((e.left, e.right), (e.right, e.left)):
+                if isinstance(a, ast.Constant) and a.value == 0 and isinstance(b, ast.Name) and b.id == sol:
+                    return True
+                if is_zero_vec(a):       # zeros * anything
+                    return True
+        if isinstance(e, ast.Call) and callee_name(e.func) == 'zeros_like' and len(e.args) == 1 and isinstance(e.args[0], ast.Name) and e.args[0].id == sol:
+            return True
+        return False
+
+    def vjp_slot(e):
+        # objective.vec_jacobian_p<k>(sol, lam)[0]
+        if isinstance(e, ast.Subscript) and isinstance(e.slice, ast.Constant) and e.slice.value == 0 and isinstance(e.value, ast.Call):
+            c = e.value
+            if isinstance(c.func, ast.Attribute) and isinstance(c.func.value, ast.Name) and c.func.value.id == obj and c.func.attr.startswith('vec_jacobian_p') \
+                    and len(c.args) == 2 and isinstance(c.args[0], ast.Name) and c.args[0].id == sol and isinstance(c.args[1], ast.Name) and c.args[1].id == lam:
+                return int(c.func.attr[len('vec_jacobian_p'):])
+        return None
+
+    for st in fn.body:
+        if isinstance(st, ast.Assign) and len(st.targets) == 1:
+            t, val = st.targets[0], st.value
+            if _is_obj_attr(t, obj, 'p'):
+                if isinstance(val, ast.Name) and val.id == pname:
+                    sets_p = True
+                elif isinstance(val, ast.Call) and callee_name(val.func) == 'param_index_update' and len(val.args) == 3 \
+                        and _is_obj_attr(val.args[0], obj, 'p') and isinstance(val.args[2], ast.Name) and val.args[2].id == pname:
+                    sets_p = True
+            elif isinstance(t, ast.Name):
+                if is_zero_vec(val):
+                    zeros.add(t.id)
+                elif isinstance(val, ast.Lambda) and len(val.args.args) == 1:
+                    b = val.body
+                    w = val.args.args[0].arg
+                    if isinstance(b, ast.Call) and _is_obj_attr(b.func, obj, 'hessian_vec') and len(b.args) == 2 and isinstance(b.args[0], ast.Name) \
+                            and b.args[0].id == sol and isinstance(b.args[1], ast.Name) and b.args[1].id == w:
+                        hv = t.id
+                elif isinstance(val, ast.Call) and callee_name(val.func) == 'solve_trust_region_minimization':
+                    adj, results = val, t.id
+                elif isinstance(val, ast.Subscript) and isinstance(val.value, ast.Name) and val.value.id == results and isinstance(val.slice, ast.Constant):
+                    if val.slice.value == 0:
+                        lam = t.id
+                elif isinstance(val, ast.Constant) and val.value is None:
+                    dps[t.id] = 'SlotNone'
+                elif vjp_slot(val) is not None:
+                    dps[t.id] = 'SlotVJP %d %d' % (vjp_slot(val), 99)
+        elif isinstance(st, ast.If):
+            # if p[k] != None: dpk = objective.vec_jacobian_pk(sol, lam)[0]   else: dpk = None
+            t = st.test
+            ok = (isinstance(t, ast.Compare) and isinstance(t.left, ast.Subscript) and isinstance(t.left.value, ast.Name) and t.left.value.id == pname
+                  and isinstance(t.left.slice, ast.Constant) and len(t.ops) == 1 and isinstance(t.ops[0], (ast.NotEq, ast.IsNot))
+                  and isinstance(t.comparators[0], ast.Constant) and t.comparators[0].value is None
+                  and len(st.body) == 1 and len(st.orelse) == 1 and isinstance(st.body[0], ast.Assign) and isinstance(st.orelse[0], ast.Assign))
+            if not ok:
+                raise ExtractError('%s: unrecognised branch at line %d' % (name, st.lineno))
+            a, b = st.body[0], st.orelse[0]
+            k = vjp_slot(a.value)
+            if not (isinstance(a.targets[0], ast.Name) and isinstance(b.targets[0], ast.Name) and a.targets[0].id == b.targets[0].id
+                    and isinstance(b.value, ast.Constant) and b.value.value is None and k is not None):
+                raise ExtractError('%s: unrecognised slot assignment at line %d' % (name, st.lineno))
+            dps[a.targets[0].id] = 'SlotVJP %d %d' % (k, t.left.slice.value)
+        elif isinstance(st, ast.Return):
+            ret = st.value
+        elif isinstance(st, ast.Expr) and isinstance(st.value, ast.Constant):
+            pass
+        else:
+            raise ExtractError('%s: unrecognised statement at line %d' % (name, st.lineno))
+    if adj is None or ret is None or not isinstance(ret, ast.Tuple) or len(ret.elts) != 2:
+        raise ExtractError('%s: adjoint solve or 2-tuple return not found' % name)
+    a = adj.args
+    inf = len(a) >= 5 and isinstance(a[4], ast.Attribute) and a[4].attr == 'inf'
+    slots_e = ret.elts[1]
+
+    def slot_of(e):
+        if isinstance(e, ast.Constant) and e.value is None:
+            return 'SlotNone'
+        if isinstance(e, ast.Name) and e.id in dps:
+            return dps[e.id]
+        k = vjp_slot(e)
+        if k is not None:
+            return 'SlotVJP %d 99' % k
+        return 'SlotOtherExpr'
+    if isinstance(slots_e, ast.Call) and callee_name(slots_e.func) == 'Params':
+        slots = [slot_of(e) for e in slots_e.args]
+    else:
+        slots = [slot_of(slots_e)]
+    return ('{| r_name := %s; r_sets_p := %s; r_adj_x0_zero := %s; r_adj_rhs_cotangent := %s; r_adj_op_hessian_at_solution := %s;\n'
+            '     r_adj_precond := %s; r_adj_radius_inf := %s; r_lam_result0 := %s; r_guess_cotangent_zero := %s;\n     r_slots := %s |}'
+            % (cstr(name), cbool(sets_p), cbool(len(a) >= 1 and is_zero_vec(a[0])), cbool(len(a) >= 2 and isinstance(a[1], ast.Name) and a[1].id == v),
+               cbool(len(a) >= 3 and isinstance(a[2], ast.Name) and a[2].id == hv and hv is not None),
+               cbool(len(a) >= 4 and _is_obj_attr(a[3], obj, 'apply_precond')), cbool(inf), cbool(lam is not None),
+               cbool(is_zero_vec(ret.elts[0])), clist(['(%s)' % s if ' ' in s else s for s in slots])))
+
+
+def forward_slots(tree):
+    """slot index used by nonlinear_solve (forward) and nonlinear_solve_b (reverse) in param_index_update(objective.p, k, designParams)"""
+    out = []
+    for name in ('nonlinear_solve', 'nonlinear_solve_b'):
+        fn = find_func(tree, name)
+        ks = [n.args[1].value for n in ast.walk(fn) if isinstance(n, ast.Call) and callee_name(n.func) == 'param_index_update'
+              and len(n.args) == 3 and isinstance(n.args[1], ast.Constant)]
+        if len(ks) != 1:
+            raise ExtractError('%s: expected exactly one param_index_update with a literal slot' % name)
+        out.append(ks[0])
+    return out
+
+
+class _Norm(ast.NodeTransformer):
+    def visit_Attribute(self, node):
+        self.generic_visit(node)
+        if isinstance(node.value, ast.Name) and node.value.id == 'mesh' and node.attr == 'coords':
+            return ast.copy_location(ast.Name(id='coords', ctx=node.ctx), node)
+        if isinstance(node.value, ast.Name) and node.value.id in ('jax', 'FunctionSpace', 'Mesh') and node.attr in ('vmap', 'FunctionSpace', 'Mesh'):
+            return ast.copy_location(ast.Name(id=node.attr, ctx=node.ctx), node)
+        return node
+
+
+def function_space_terms(repo):
+    ta = ast.parse(open(os.path.join(repo, 'optimism/inverse/AdjointFunctionSpace.py')).read())
+    td = ast.parse(open(os.path.join(repo, 'optimism/FunctionSpace.py')).read())
+    fa = find_func(ta, 'construct_function_space_for_adjoint')
+    fd = find_func(td, 'construct_function_space_from_parent_element')
+    mesh_fields = None
+    tm = ast.parse(open(os.path.join(repo, 'optimism/Mesh.py')).read())
+    for st in tm.body:
+        if isinstance(st, ast.Assign) and isinstance(st.targets[0], ast.Name) and st.targets[0].id == 'Mesh' and isinstance(st.value, ast.Call) \
+                and len(st.value.args) >= 2 and isinstance(st.value.args[1], ast.List):
+            mesh_fields = [e.value for e in st.value.args[1].elts]
+    rebuild_ok = False
+    missing, extra, wrong = list(mesh_fields or []), [], []
+    body_a = []
+    for st in fa.body:
+        if isinstance(st, ast.Assign) and isinstance(st.targets[0], ast.Name) and st.targets[0].id == 'mesh':
+            c = st.value
+            if isinstance(c, ast.Call) and callee_name(c.func) == 'Mesh' and not c.args and mesh_fields is not None:
+                kws = {k.arg: k.value for k in c.keywords}
+                missing = [f for f in mesh_fields if f not in kws]
+                extra = [k for k in kws if k not in mesh_fields]
+                wrong = [k for k, v in kws.items() if not ((k == 'coords' and isinstance(v, ast.Name) and v.id == 'coords') or
+                                                           (k != 'coords' and isinstance(v, ast.Attribute) and isinstance(v.value, ast.Name)
+                                                            and v.value.id == 'mesh' and v.attr == k))]
+                rebuild_ok = not (missing or extra or wrong)
+            continue
+        body_a.append(st)
+    strip = lambda body: [s for s in body if not (isinstance(s, ast.Expr) and isinstance(s.value, ast.Constant))]
+    dump = lambda body: ' ;; '.join(ast.unparse(_Norm().visit(ast.parse(ast.unparse(s)))) for s in strip(body))
+    return dump(body_a), dump(fd.body), rebuild_ok, missing, extra + wrong
